@@ -55,6 +55,7 @@ class Codecs:
             tdf = prog.need_cls("Tdf", "basictdf")
             self.header = Unit(name="TdfHeader", cls=tdf, writer=prog.need_method(tdf, "new"), reader=prog.need_method(tdf, "__enter__"), wterms=[], rterms=[])
             self.header.error = str(e)
+            self.header.error_exc = e
         self.pairs = parallel_pairs(prog)
         self.bad_units = {}
         self.results = {}  # unit name -> list of (ok, sub, wnode, rnode, text)
@@ -76,6 +77,8 @@ class Codecs:
         if u.name in self.unifiers:
             return self.unifiers[u.name]
         if getattr(u, "error", None):
+            if getattr(u, "error_exc", None) is not None:
+                raise u.error_exc     # a DefiniteViolation stays one
             raise AnalysisError(u.error)
         res = []
 
@@ -102,7 +105,11 @@ class Codecs:
         run ends undecided (exit 2) unless another rule reports a definite violation."""
         for u in list(self.units.values()) + [self.header]:
             e = getattr(u, "error", None)
-            if e and e not in rep.undecided:
+            ex = getattr(u, "error_exc", None)
+            from .report import DefiniteViolation
+            if e and isinstance(ex, DefiniteViolation):
+                ex.report(rep)
+            elif e and e not in rep.undecided:
                 rep.undecided.append(e)
         for name in [n for n, u in self.units.items() if getattr(u, "error", None)]:
             self.bad_units[name] = self.units.pop(name)
